@@ -232,6 +232,15 @@ impl Property for C18 {
                     kind = if choice == 3 { "arity-minus-one" } else { "arity-plus-one" };
                 }
             }
+            5 if rng.chance(1, 3) => {
+                // junk, then a well-formed literal (the error must not be forgotten when
+                // something parsable follows it)
+                let e = *rng.pick(&["x true", "hello 1", "(= .a *\"x\")", "x 1", "?? null", "(size * [1])", "y \"s\""]);
+                let o = fresh_position(rng, e);
+                needs.push(o.last().unwrap().clone());
+                replace_or_add(&mut case, o);
+                kind = "leading-garbage";
+            }
             5 if !exprs.is_empty() => {
                 let i = *rng.pick(&exprs);
                 let (p, e, s) = split_expr(&case.opts[i]);
@@ -481,7 +490,21 @@ impl Property for C18 {
             9 => {
                 // JSON-only option with csv/text, or text-only option with json/csv
                 if style == Style::Json {
-                    let o = vec![(*rng.pick(&["--headers", "--items-seperator=;", "--null-keyword=NIL", "--string-prefix=<"])).to_string()];
+                    // (also with exactly the value the option has when it is not given)
+                    let o = vec![(*rng.pick(&[
+                        "--headers",
+                        "--items-seperator=;",
+                        "--null-keyword=NIL",
+                        "--string-prefix=<",
+                        "--null-keyword=null",
+                        "--true-keyword=true",
+                        "--false-keyword=false",
+                        "--string-prefix=",
+                        "--string-postfix=",
+                        "--items-seperator=\t",
+                        "--missing-value-keyword=",
+                    ]))
+                    .to_string()];
                     needs.push(o[0].clone());
                     forbids.push("--output-style".into());
                     forbids.push("-o".into());
@@ -619,7 +642,21 @@ impl Property for C18 {
             }
         }
         let on_files = case.param("on_files") == 1;
-        let mut spec = if on_files {
+        let mut empty_dirs: Option<String> = None;
+        let mut spec = if on_files && input.len() % 5 == 0 {
+            // nothing to read at all: every argument is a directory without a single file in
+            // it (one of them nested). The configuration is as invalid as ever.
+            let d = ctx.fresh_dir()?;
+            let _ = std::fs::create_dir_all(format!("{d}/a/b"));
+            let _ = std::fs::create_dir_all(format!("{d}/c"));
+            ctx.stats.probe("the arguments are directories without any file");
+            let mut spec = case_spec(case, b"");
+            spec.argv.push("--".into());
+            spec.argv.push(format!("{d}/a"));
+            spec.argv.push(format!("{d}/c"));
+            empty_dirs = Some(d);
+            spec
+        } else if on_files {
             let half = input.len() / 2;
             let datas = vec![input[..half].to_vec(), input[half..].to_vec()];
             let paths = ctx.fresh_paths(2);
@@ -640,6 +677,9 @@ impl Property for C18 {
             spec.err.hostile = true;
         }
         let r = ctx.exec(spec);
+        if let Some(d) = &empty_dirs {
+            let _ = std::fs::remove_dir_all(d);
+        }
         ctx.stats.nontrivial = true;
         ctx.stats.fault(&format!("config.{kind}"), 1);
         if hostile {
